@@ -419,7 +419,120 @@ func e2eScenario(R int, replies bool, c int) *explore.Scenario {
 	}}
 }
 
+// Several replies for one command: with AckCommandErrors=false a failing command is nacked, redelivered and
+// handled again, and every handling publishes a reply; the requester reads until a reply without error.
+// A second requester shares the reply topic.
+func e2eRedeliveryScenario(c int) *explore.Scenario {
+	return &explore.Scenario{Name: "e2e/redelivered-command/SendWithReplies", C: c, DataOnly: c < 0, Opts: vs.Options{MaxSteps: 100000}, Body: func() {
+		g := gochannel.NewGoChannel(gochannel.Config{}, nil)
+		jm := cqrs.JSONMarshaler{}
+		finished := 0
+		backend, err := requestreply.NewPubSubBackend[Res](requestreply.PubSubBackendConfig{
+			Publisher:                g,
+			SubscriberConstructor:    func(requestreply.PubSubBackendSubscribeParams) (message.Subscriber, error) { return g, nil },
+			GenerateSubscribeTopic:   func(requestreply.PubSubBackendSubscribeParams) (string, error) { return "reply", nil },
+			GeneratePublishTopic:     func(requestreply.PubSubBackendPublishParams) (string, error) { return "reply", nil },
+			OnListenForReplyFinished: func(context.Context, requestreply.PubSubBackendSubscribeParams) { finished++ },
+			AckCommandErrors:         false,
+		}, marshaler)
+		if err != nil {
+			vs.Fail("setup", "%v", err)
+			return
+		}
+		r, _ := message.NewRouter(message.RouterConfig{}, nil)
+		bus, _ := cqrs.NewCommandBusWithConfig(g, cqrs.CommandBusConfig{
+			GeneratePublishTopic: func(cqrs.CommandBusGeneratePublishTopicParams) (string, error) { return "commands", nil },
+			Marshaler:            jm,
+		})
+		proc, err := cqrs.NewCommandProcessorWithConfig(r, cqrs.CommandProcessorConfig{
+			GenerateSubscribeTopic: func(cqrs.CommandProcessorGenerateSubscribeTopicParams) (string, error) { return "commands", nil },
+			SubscriberConstructor:  func(cqrs.CommandProcessorSubscriberConstructorParams) (message.Subscriber, error) { return g, nil },
+			Marshaler:              jm,
+		})
+		if err != nil {
+			vs.Fail("setup", "%v", err)
+			return
+		}
+		handled := map[string]int{}
+		failFirst := 1 + vs.Choose(2, 0, "failed handlings of the first command")
+		err = proc.AddHandlers(requestreply.NewCommandHandlerWithResult[Cmd, Res]("h", backend, func(ctx context.Context, c *Cmd) (Res, error) {
+			handled[c.ID]++
+			if c.ID == "cmd0" && handled[c.ID] <= failFirst {
+				return Res{Val: fmt.Sprintf("res-%s-%d", c.ID, handled[c.ID])}, fmt.Errorf("err-%s-%d", c.ID, handled[c.ID])
+			}
+			return Res{Val: fmt.Sprintf("res-%s-%d", c.ID, handled[c.ID])}, nil
+		}))
+		if err != nil {
+			vs.Fail("setup", "%v", err)
+			return
+		}
+		go func() {
+			if err := r.Run(context.Background()); err != nil {
+				vs.Fail("run-result", "%v", err)
+			}
+		}()
+		<-r.Running()
+		var wg vs.WaitGroup
+		for i := 0; i < 2; i++ {
+			id := fmt.Sprintf("cmd%d", i)
+			wg.Add(1)
+			go func() {
+				defer wg.Done()
+				ch, cancel, err := requestreply.SendWithReplies[Res](context.Background(), bus, backend, &Cmd{ID: id})
+				if err != nil {
+					vs.Fail("send-error", "%v", err)
+					return
+				}
+				defer cancel()
+				n := 0
+				for rep := range ch {
+					n++
+					wantErr := ""
+					if id == "cmd0" && n <= failFirst {
+						wantErr = fmt.Sprintf("err-%s-%d", id, n)
+					}
+					gotErr := ""
+					if rep.Error != nil {
+						gotErr = rep.Error.Error()
+					}
+					if rep.HandlerResult.Val != fmt.Sprintf("res-%s-%d", id, n) || gotErr != wantErr {
+						vs.Fail("own-replies-only", "requester of %s: reply %d carries result %q error %q", id, n, rep.HandlerResult.Val, gotErr)
+					}
+					if rep.Error == nil {
+						break
+					}
+				}
+				want := 1
+				if id == "cmd0" {
+					want = failFirst + 1
+				}
+				if n != want {
+					vs.Fail("own-replies-only", "requester of %s received %d replies, expected %d (one per handling)", id, n, want)
+				}
+			}()
+		}
+		wg.Wait() // hang = a reply that never arrives
+		vs.Quiesce()
+		if handled["cmd0"] != failFirst+1 || handled["cmd1"] != 1 {
+			vs.Fail("ack-policy", "AckCommandErrors=false: handlings %v, expected cmd0 %d times (nacked and redelivered after each error) and cmd1 once", handled, failFirst+1)
+		}
+		if finished != 2 {
+			vs.Fail("finished-hook-once", "2 requests but OnListenForReplyFinished ran %d times", finished)
+		}
+		if l := leaked(); len(l) > 0 {
+			vs.Fail("listener-terminates", "listener goroutines alive after all requesters cancelled: %s", strings.Join(l, "; "))
+		}
+		vs.Note("ok failFirst=%d", failFirst)
+	}}
+}
+
 func init() {
+	reg.AddW("C18", e2eRedeliveryScenario(-1).Name, reg.Quick, 10, func(t reg.Tier) *explore.Scenario {
+		if t == reg.Thorough {
+			return e2eRedeliveryScenario(0)
+		}
+		return e2eRedeliveryScenario(-1)
+	})
 	addL := func(tier reg.Tier, w int, sp listenSpec, ct int) {
 		sc := listenScenario(sp)
 		reg.AddW("C18", sc.Name, tier, w, func(t reg.Tier) *explore.Scenario {
